@@ -7,6 +7,14 @@ from ... import mirrun
 from . import c07_atomic
 
 PUSH = r"(^|::)push_queue$"
+# verbs for which notify_proxys queues nothing (no proxy destination per get_destinations -
+# pinned by the Kani harnesses - and no listener special case)
+NO_ANSWER_IN_PROXYS = {
+    "ConfigureMetrics", "SetMetricDetail", "QueryMetrics", "Logging", "QueryClustersHashes", "QueryClusterById",
+    "QueryClustersByDomain", "SetMaxConnectionsPerIp", "QueryMaxConnectionsPerIp", "ReturnListenSockets",
+    "SaveState", "CountRequests", "QueryCertificatesFromTheState", "QueryHealthChecks", "LoadState", "ListWorkers",
+    "ListFrontends", "ListListeners", "LaunchWorker", "UpgradeMain", "UpgradeWorker", "SubscribeEvents", "ReloadConfiguration",
+}
 
 
 class Q:
@@ -116,6 +124,23 @@ def notify(ob, tier):
     v, _, d = q([ret, "(bvugt %s (_ bv1 16))" % count_expr(gd)])
     if v == "sat":
         bad.append("a request is delegated to notify_proxys twice")
+    # a verb that was answered here may fall through to notify_proxys only if it has no
+    # proxy destination and no listener special case there (else it is answered again)
+    src = open(mirrun.REPO + "/command/src/proto/command.rs").read()
+    m = re.search(r"pub enum RequestType \{(.*?)\n    \}", src, re.S)
+    variants = re.findall(r"^\s+([A-Z]\w+)\(", m.group(1), re.M)
+    dkey = [k for k in ex.initial if re.match(r"^discr\(\(.* as Some\)\.0\)$", k)]
+    if len(dkey) != 1:
+        return dict(res, verdict="inconclusive", why="request type discriminant not found (%s)" % dkey)
+    D = ex.initial[dkey[0]].term
+    nodest = [i for i, v0 in enumerate(variants) if v0 in NO_ANSWER_IN_PROXYS]
+    in_nodest = engine.OR(*["(= %s %s)" % (D, engine.bv(i, 64)) for i in nodest])
+    v, model, d = q([ret, engine.OR(*go), engine.OR(*gd), engine.NOT(in_nodest)], get=[D])
+    if v == "inconclusive":
+        return dict(res, verdict="inconclusive", why=d)
+    if v == "sat":
+        idx = model.get(D)
+        bad.append("%s is answered by notify and then handed to notify_proxys, which answers it again" % (variants[idx] if idx is not None and idx < len(variants) else "a verb"))
     tot_q, tot_s = q.n + stats.get("queries", 0), q.secs + stats.get("secs", 0.0)
     if bad:
         return dict(res, verdict="counterexample", text="; ".join(bad), model={"problems": bad}, queries=tot_q, solver_s=tot_s,
